@@ -132,3 +132,47 @@ func writeBoundedReplay(dir, pid string, r *BoundedResult, tier string) string {
 	os.WriteFile(p, b, 0o644)
 	return p
 }
+
+// cmdReplay re-decides the obligation recorded in a replay file against the current working tree: it re-runs the
+// property's quick check (VCs are regenerated from /repo) and reports that obligation only.
+func cmdReplay(args []string) int {
+	if len(args) < 1 {
+		fmt.Fprintln(os.Stderr, "usage: govc replay <replay file>")
+		return 2
+	}
+	var doc map[string]interface{}
+	if err := readJSON(args[0], &doc); err != nil {
+		fmt.Fprintln(os.Stderr, "cannot read replay file:", err)
+		return 2
+	}
+	pid, _ := doc["property"].(string)
+	obl, _ := doc["obligation"].(string)
+	if name, ok := doc["name"].(string); ok && obl == "" {
+		obl = "bounded:" + name
+	}
+	if pid == "" || obl == "" {
+		fmt.Fprintln(os.Stderr, "replay file names no property/obligation")
+		return 2
+	}
+	cmd := exec.Command(os.Args[0], "check", pid, "quick")
+	cmd.Env = os.Environ()
+	out, _ := cmd.CombinedOutput()
+	hit := false
+	for _, ln := range strings.Split(string(out), "\n") {
+		if strings.HasPrefix(ln, "VIOLATION ") && strings.Contains(ln, "obligation="+obl) {
+			fmt.Println(ln)
+			hit = true
+		}
+		if strings.HasPrefix(ln, "bounded-fail ") && strings.HasPrefix(obl, "bounded:") {
+			fmt.Println(ln)
+		}
+		if strings.HasPrefix(ln, "KNOWN-FINDING:") && strings.Contains(ln, obl) {
+			fmt.Println(ln)
+		}
+	}
+	if hit {
+		return 1
+	}
+	fmt.Printf("REPLAY property=%s obligation=%s: not reproduced, the obligation is discharged on the current tree\n", pid, obl)
+	return 0
+}
